@@ -58,21 +58,26 @@ class Gate:
             self.cv.notify_all()
 
 
-def solo(p, kw):
+def jac_arg(jm, grad):
+    """The `jac` argument of a run: the exact gradient or one of the finite-difference modes."""
+    return grad if jm == "exact" else (None if jm == "none" else jm)
+
+
+def solo(p, kw, jm="exact"):
     import lbfgsb
 
     lg = equiv.EvalLog(p.fun, p.grad)
-    r = lbfgsb.minimize_lbfgsb(x0=p.x0, fun=lg.fun, jac=lg.grad, bounds=p.bounds, **kw)
+    r = lbfgsb.minimize_lbfgsb(x0=p.x0, fun=lg.fun, jac=jac_arg(jm, lg.grad), bounds=p.bounds, **kw)
     return r, lg.pts
 
 
-def threaded(pa, kwa, pb, kwb, order):
+def threaded(pa, kwa, pb, kwb, order, jma="exact", jmb="exact"):
     import lbfgsb
 
     gate = Gate(order)
     out = {}
 
-    def runner(me, p, kw):
+    def runner(me, p, kw, jm):
         lg = equiv.EvalLog(p.fun, p.grad)
 
         def f(x):
@@ -90,15 +95,15 @@ def threaded(pa, kwa, pb, kwb, order):
                 gate.leave(me, g)
 
         try:
-            r = lbfgsb.minimize_lbfgsb(x0=p.x0, fun=f, jac=gr, bounds=p.bounds, **kw)
+            r = lbfgsb.minimize_lbfgsb(x0=p.x0, fun=f, jac=jac_arg(jm, gr), bounds=p.bounds, **kw)
             out[me] = (r, lg.pts, None)
         except Exception as ex:  # noqa: BLE001
             out[me] = (None, lg.pts, ex)
         finally:
             gate.finish(me)
 
-    ta = threading.Thread(target=runner, args=("A", pa, kwa))
-    tb = threading.Thread(target=runner, args=("B", pb, kwb))
+    ta = threading.Thread(target=runner, args=("A", pa, kwa, jma))
+    tb = threading.Thread(target=runner, args=("B", pb, kwb, jmb))
     ta.start()
     tb.start()
     ta.join(120)
@@ -108,7 +113,7 @@ def threaded(pa, kwa, pb, kwb, order):
     return out, gate.digests
 
 
-def nested(pa, kwa, pb, kwb, j):
+def nested(pa, kwa, pb, kwb, j, jma="exact", jmb="exact"):
     import lbfgsb
 
     la = equiv.EvalLog(pa.fun, pa.grad)
@@ -118,10 +123,10 @@ def nested(pa, kwa, pb, kwb, j):
     def f(x):
         n["c"] += 1
         if n["c"] == j and "r" not in inner:
-            inner["r"], inner["pts"] = solo(pb, kwb)
+            inner["r"], inner["pts"] = solo(pb, kwb, jmb)
         return la.fun(x)
 
-    r = lbfgsb.minimize_lbfgsb(x0=pa.x0, fun=f, jac=la.grad, bounds=pa.bounds, **kwa)
+    r = lbfgsb.minimize_lbfgsb(x0=pa.x0, fun=f, jac=jac_arg(jma, la.grad), bounds=pa.bounds, **kwa)
     return r, la.pts, inner
 
 
@@ -133,13 +138,14 @@ def pair_job(args):
     sa, sb, orders, nest_js = args
     pa, pb = corpus.make_problem(sa), corpus.make_problem(sb)
     kwa, kwb = dict(sa["kwargs"]), dict(sb["kwargs"])
-    ra, la = solo(pa, kwa)
-    rb, lb_ = solo(pb, kwb)
-    ra2, la2 = solo(pa, kwa)
+    jma, jmb = sa.get("jac", "exact"), sb.get("jac", "exact")
+    ra, la = solo(pa, kwa, jma)
+    rb, lb_ = solo(pb, kwb, jmb)
+    ra2, la2 = solo(pa, kwa, jma)
     sd = shared_digest()
     traces = [("repeat", "", equiv.merge("C14_Repeat", True, la, la2, equiv.result_fields(ra, ra2)))]
     for order in orders:
-        out, digs = threaded(pa, kwa, pb, kwb, order)
+        out, digs = threaded(pa, kwa, pb, kwb, order, jma, jmb)
         for me, (r0, l0) in (("A", (ra, la)), ("B", (rb, lb_))):
             r, pts, ex = out[me]
             if ex is not None:
@@ -150,7 +156,11 @@ def pair_job(args):
                 tr = equiv.merge("C14_Threads", True, l0, pts, fields)
             traces.append(("threads", "".join(order) + ":" + me, tr))
     for j in nest_js:
-        r, pts, inner = nested(pa, kwa, pb, kwb, j)
+        try:
+            r, pts, inner = nested(pa, kwa, pb, kwb, j, jma, jmb)
+        except Exception as ex:  # noqa: BLE001 - the solo runs of the same calls returned: an exception here is a verdict
+            traces.append(("nested-outer", str(j), equiv.merge("C14_Nested", True, [], [], {"no_exception_" + type(ex).__name__: False})))
+            continue
         traces.append(("nested-outer", str(j), equiv.merge("C14_Nested", True, la, pts, equiv.result_fields(ra, r))))
         if "r" in inner:
             traces.append(("nested-inner", str(j), equiv.merge("C14_Nested", True, lb_, inner["pts"], equiv.result_fields(rb, inner["r"]))))
@@ -304,7 +314,21 @@ def run(ctx):
     per = (len(sch) + npairs - 1) // npairs if ctx.quick else len(sch)
     for i in range(npairs):
         orders = sch[i * per:(i + 1) * per] if ctx.quick else sch
-        jobs.append((mk_spec(rng, 4), mk_spec(rng, 4), orders, nest_js))
+        sa, sb = mk_spec(rng, 4), mk_spec(rng, 4)
+        if i % 2 == 1:
+            # runs with finite-difference gradients of different schemes / steps / boxes, interleaved at every
+            # objective call (stencil evaluations included) and nested
+            modes = [("2-point", "3-point"), ("none", "2-point"), ("3-point", "none"), ("none", "none"),
+                     ("exact", "3-point"), ("2-point", "2-point")][(i // 2) % 6]
+            for s_, jm in ((sa, modes[0]), (sb, modes[1])):
+                s_["jac"] = jm
+                s_["family"] = ["qp", "qp4", "qpcos"][int(rng.integers(3))]
+                s_["box_kinds"] = ["lo", "up", "box", "box", "free"]
+                if jm == "none":
+                    s_["kwargs"]["eps"] = float(rng.choice([1e-8, 1e-6, 1e-5]))
+                elif jm != "exact":
+                    s_["kwargs"]["finite_diff_rel_step"] = [None, 1e-7, 1e-5][int(rng.integers(3))]
+        jobs.append((sa, sb, orders, nest_js))
     vspecs = []
     for i in range(ctx.pick(24, 240)):
         s = mk_spec(rng, 4)
